@@ -256,7 +256,7 @@ func ruleUseAfterErr(c *eng.Ctx, rule string, pkgs []string) {
 								if o := eng.ObjOf(info, l); o == x || o == e {
 									// uses on the RHS still count
 									for _, r := range a2.Rhs {
-										if pos := derefOf(info, r, x); pos.IsValid() {
+										if pos := derefOf(info, r, x, e); pos.IsValid() {
 											where = pos
 											return eng.Hit
 										}
@@ -268,7 +268,7 @@ func ruleUseAfterErr(c *eng.Ctx, rule string, pkgs []string) {
 						if _, ok := nd.(*ast.ReturnStmt); ok {
 							return eng.Cut
 						}
-						if pos := derefOf(info, nd, x); pos.IsValid() {
+						if pos := derefOf(info, nd, x, e); pos.IsValid() {
 							where = pos
 							return eng.Hit
 						}
@@ -304,7 +304,7 @@ func ruleUseAfterErr(c *eng.Ctx, rule string, pkgs []string) {
 
 // derefOf returns the position of a dereferencing use of x inside n (method call / field access on
 // x, *x, x[i]); function literals are not entered.
-func derefOf(info *types.Info, n ast.Node, x types.Object) token.Pos {
+func derefOf(info *types.Info, n ast.Node, x types.Object, errs ...types.Object) token.Pos {
 	var pos token.Pos
 	ast.Inspect(n, func(m ast.Node) bool {
 		if pos.IsValid() {
@@ -318,6 +318,13 @@ func derefOf(info *types.Info, n ast.Node, x types.Object) token.Pos {
 			if y.Op == token.LAND || y.Op == token.LOR {
 				if is, nonNil := eng.ErrNilTest(info, y.X, x); is && nonNil == (y.Op == token.LAND) {
 					return false
+				}
+				// … and `err == nil && use(x)` / `err != nil || use(x)` for the call's error: on the
+				// failure edge the right operand is not evaluated
+				for _, e := range errs {
+					if is, nonNil := eng.ErrNilTest(info, y.X, e); is && nonNil == (y.Op == token.LOR) {
+						return false
+					}
 				}
 			}
 		case *ast.SelectorExpr:
